@@ -42,13 +42,14 @@ class _Subprocess:
     mode = 0
     code = 0
     partial = ""
+    stderr_text = "bad format"
     @classmethod
     def run(cls, argv, **kw):
         if cls.mode == 1:
             raise FileNotFoundError(argv[0])
         if cls.mode == 2:
             # a disassembler that fails may have written a banner / a partial listing to stdout already
-            raise _real_subprocess.CalledProcessError(cls.code, argv, cls.partial, "bad format")
+            raise _real_subprocess.CalledProcessError(cls.code, argv, cls.partial, cls.stderr_text)
         return _Result(cls.code)
 _sd.subprocess = _Subprocess
 _sd.CalledProcessError = _real_subprocess.CalledProcessError
@@ -98,6 +99,27 @@ def harnesses(t):
     # any fault: an exception, and the listing is neither parsed nor matched
     return raised is not None and _Parser.parsed == 0 and _Consumer.finalized == 0
 ''', timeout=T, prelude=PRE, key="F1_disassembler", note="symbolic fault kind, exit code, file existence, partial stdout of a failing disassembler"))
+    hs.append(ch.H("c17/F1b_objdump_with_sections", '''def f1b(mode: int, code: int, nsec: int, sec_msg: bool, partial: str) -> bool:
+    """
+    pre: 1 <= mode <= 2 and 1 <= code <= 3 and 0 <= nsec <= 2 and len(partial) <= 2
+    post: _
+    """
+    # the real GNU objdump front end, with config.sections set or not: a failing run is an error whatever objdump printed
+    from jasm.global_definitions import JASMConfig, DisassStyle
+    from jasm.stringify_asm.implementations.gnu_objdump.gnu_objdump_disassembler import GNUObjdumpDisassembler
+    JASMConfig.get_instance().load_config({"sections": [".text", ".init"][:nsec]} if nsec else {})
+    _Subprocess.mode, _Subprocess.code, _Path.exists_value = mode, code, True
+    _Subprocess.partial = partial
+    _Subprocess.stderr_text = "objdump: section '.text' mentioned in a -j option, but not found in any input file" if sec_msg else "objdump: f.bin: file format not recognized"
+    _Parser.parsed = 0
+    _Consumer.finalized = 0
+    raised = None
+    try:
+        ComposableProducer(GNUObjdumpDisassembler(DisassStyle.att), _Parser()).process_file("f.bin", _Consumer())
+    except Exception as e:
+        raised = e
+    return raised is not None and _Parser.parsed == 0 and _Consumer.finalized == 0
+''', timeout=T, prelude=PRE, key="F1_disassembler", note="GNUObjdumpDisassembler with 0-2 configured sections; failing objdump with either diagnostic text"))
     hs.append(ch.H("c17/F2_open", '''def f2(k_missing: bool, k_perm: bool, k_dir: bool, k_decode: bool) -> bool:
     """
     post: _
